@@ -381,6 +381,8 @@ pub fn productions() -> Vec<Prod> {
         X "m_hash_sub"   "#a _ ‹X›";
         X "m_hash_sup"   "#a ^ ‹X›";
         X "m_hash_subsup" "#a.b _ ‹X› ^ ‹X›";
+        X "m_bs_sub"     "\\ _‹X›";
+        X "m_bs_sup"     "\\ ^‹X›";
         X "m_sub"        "x_‹X›";
         X "m_sup"        "x^‹X›";
         X "m_subsup"     "x_‹X›^‹X›";
